@@ -32,6 +32,15 @@ func c20Phone(ver consts.ProtocolVersionType) string {
 			lens = append(lens, i)
 		}
 	}
+	// concrete numbers at the edges of what the width can hold (2019: 20 digits, beyond 64 bits)
+	edge := []string{"999999999999", "000000000001", "100000000000"}
+	if ver == consts.JT808Protocol2019 {
+		edge = []string{"99999999999999999999", "18446744073709551616", "18446744073709551615", "00000000000000000001"}
+	}
+	if k := vrt_Choose("edgePhone", len(edge)+1); k > 0 {
+		vrt_Cover("edge-phone", true)
+		return edge[k-1]
+	}
 	d := lens[vrt_Choose("digits", len(lens))]
 	if vrt_Tier() > 0 || d <= 4 {
 		p := vrt_String("phone", d)
